@@ -55,6 +55,11 @@ def monitor(driver, doc, text, prep, o):
     case = dsl.case_doc(text, prep, "c07")
     import re
     has_any = "@any" in text or re.search(r"(?m)^\s*- '?[0-9a-f]+h'?$", text) is not None    # wildcard-like elements: judged against R-dsl here
+    if "" in o.hits:
+        # the rule can match the empty sequence (every element optional): an empty hit covers no instruction, so there
+        # is no address to judge; such rules are covered by C12's mode-agreement relations
+        ctx.event("skipped_rule_that_matches_empty")
+        return
     # (a) alignment of all-matches hits
     for n, w in enumerate(o.real_windows):
         if w is None:
@@ -138,7 +143,7 @@ def wildcard_position_stratum(ctx, d, n):
 
 
 def run_shard(ctx):
-    d = drive.Driver(ctx, feat, flags="random", styles=("mixed", "runs", "dups", "tiny"), judge_model=False, extra=monitor,
+    d = drive.Driver(ctx, feat, flags="random", styles=("mixed", "runs", "dups", "tiny", "multisec"), judge_model=False, extra=monitor,
                      interesting=None)
     d.macros = [MACROS]
     d.loop(2500, 120000)
